@@ -71,7 +71,7 @@ class Run(object):
     def _call(self, rec, fn):
         """Run fn() with seams enabled and the record's fault plan; returns (result, exception)."""
         np.random.seed(rec.get("sub_seed", 0) % (2 ** 32))
-        self.seams.begin_op(rec.get("faults", ()), stdout=True)
+        self.seams.begin_op(rec.get("faults", ()), stdout=True, seed=rec.get("sub_seed", 0))
         try:
             out, exc = fn(), None
         except Exception as e:  # noqa
